@@ -329,6 +329,19 @@ OWNER_WRITE_CASES = [
     ("shadow-then-op-assign-in-factory", "mk = fn(start: int) -> fn(int) -> int {\n  acc = start\n  return fn(step: int) -> int {\n    acc = acc + step\n    acc += 1\n    return acc\n  }\n}\na = mk(100)\nb = mk(200)\nprint a(5)\nprint a(5)\nprint b(1)\n", ["106", "106", "202"]),
     ("shadow-then-each-op-assign", "x = 7\nsc = fn() -> int {\n  x = x + 1\n  x -= 2\n  x *= 3\n  x /= 2\n  x %= 5\n  return x\n}\nprint sc()\nprint x\n", ["4", "7"]),
     ("shadow-then-counter", "x = 1\nrd = fn() -> int {\n  return x\n}\nsc = fn() -> int {\n  x = x * 10\n  t = 0\n  from 0 to 3, x {\n    t = t + x\n  }\n  return t\n}\nprint sc()\nprint x\nprint rd()\n", ["3", "1", "1"]),
+    # the variable is LOCAL TO A BLOCK (body of if / else / while / from); a closure made there captures it; the owner writes it again in that block
+    ("block-local-in-while", "rs: [fn() -> int...] = []\ni = 0\nwhile i < 3 {\n  v = i * 10\n  rs.push(fn() -> int {\n    return v\n  })\n  v = v + 1\n  i = i + 1\n}\na = rs[0]\nb = rs[1]\nc = rs[2]\nprint a()\nprint b()\nprint c()\n", ["1", "11", "21"]),
+    ("block-local-in-from", "rs: [fn() -> int...] = []\nfrom 0 to 3, i {\n  v = i * 10\n  rs.push(fn() -> int {\n    return v\n  })\n  v = v + 1\n  v = v + 1\n}\na = rs[0]\nc = rs[2]\nprint a()\nprint c()\n", ["2", "22"]),
+    ("block-local-in-if", "i = 3\nif i == 3 {\n  t = 0\n  add = fn(n: int) {\n    modify t = t + n\n  }\n  peek = fn() -> int {\n    return t\n  }\n  add(1)\n  t = 10\n  add(5)\n  print t\n  print peek()\n}\n", ["15", "15"]),
+    ("block-local-in-else", "i = 3\nif i == 4 {\n  print 0\n} else {\n  t = 0\n  peek = fn() -> int {\n    return t\n  }\n  t = 10\n  print peek()\n  t = t + 1\n  print peek()\n}\n", ["10", "11"]),
+    ("block-local-in-function-block", "mk = fn(k: int) -> fn() -> int {\n  if k > 0 {\n    t = k\n    peek = fn() -> int {\n      return t\n    }\n    t = t * 2\n    t = t + 1\n    return peek\n  }\n  return fn() -> int {\n    return 0\n  }\n}\nh = mk(5)\nprint h()\ng = mk(7)\nprint g()\nprint h()\n", ["11", "15", "11"]),
+    ("block-local-nested-blocks", "from 0 to 2, i {\n  if i == 1 {\n    t = 5\n    bump = fn() {\n      modify t = t + 1\n    }\n    t = 7\n    bump()\n    print t\n    k = 0\n    while k < 2 {\n      k = k + 1\n      t = t + 10\n    }\n    bump()\n    print t\n  }\n}\n", ["8", "29"]),
+    # a field is a variable of the class body: methods, the constructor and closures made in methods reach it by its bare name, and that is the SAME variable as obj.field / self.field
+    ("field-bare-name-and-object-access", "class Meter {\n  total: int\n  constructor(self, start: int) {\n    modify total = start\n  }\n  fn add(self, n: int) {\n    modify total = total + n\n  }\n"
+     "  fn reader(self) -> fn() -> int {\n    return fn() -> int {\n      return total\n    }\n  }\n}\nm = Meter(10)\nr = m.reader()\nm.add(5)\nprint r()\nprint m.total\nm.total = 100\nprint r()\nm.add(1)\nprint m.total\n"
+     "o = Meter(7)\no.add(1)\nprint o.total\nprint m.total\n", ["15", "15", "100", "101", "8", "101"]),
+    ("field-self-write-seen-by-bare-name", "class Tank {\n  level: int\n  constructor(self) {\n    self.level = 10\n  }\n  fn reading(self) -> int {\n    return level\n  }\n  fn fill(self, n: int) {\n    self.level = self.level + n\n  }\n  fn reset(self) {\n    modify level = 0\n  }\n}\n"
+     "t = Tank()\nprint t.reading()\nt.fill(60)\nprint t.reading()\nu = Tank()\nu.fill(1)\nprint u.reading()\nprint t.reading()\nt.reset()\nprint t.level\nprint u.level\n", ["10", "70", "11", "70", "0", "11"]),
     ("captured-op-assign-writes-through", "x = 1\nrd = fn() -> int {\n  return x\n}\nadd = fn() -> int {\n  x += 5\n  return x\n}\nprint add()\nprint x\nprint rd()\n", ["6", "6", "6"]),
 ]
 
@@ -416,7 +429,7 @@ def run(ctx):
         got = out.split("\n")[:-1]
         if rc != 0 or got != exp:
             refused = "Did not compile" in (out + err)
-            kind = "shadowing-local" if form.startswith("shadow") else "unwrap-into" if "unwrap-into" in form else "owner-write"
+            kind = "shadowing-local" if form.startswith("shadow") else "unwrap-into" if "unwrap-into" in form else "block-local" if form.startswith("block-local") else "field" if form.startswith("field") else "owner-write"
             ctx.report("one-variable-one-cell:" + kind, "owner and closures share ONE variable, a shadowing local is a different one (%s): %s, expected %r: %s"
                        % (form, "the program is refused" if refused else "printed %r (exit %d)" % (got, rc), exp, (out + err)[-300:].replace("\n", " ") if rc != 0 else ""),
                        {"program": src, "expected": exp, "observed": got, "rc": rc, "stderr": err[-600:], "how": "mscript run main.ms -q"})
